@@ -85,6 +85,13 @@ def compile_expression(
     # Create mapping from variable name to array index
     var_indices = {var.name: i for i, var in enumerate(variables)}
 
+    # Parameters compare equal by name, so a bare Parameter is not a safe cache key:
+    # another Parameter with the same name would get this one's closure
+    from optyx.core.parameters import Parameter
+
+    if isinstance(expr, Parameter):
+        return _build_evaluator(expr, var_indices)
+
     # Generate and cache the compiled function
     return _compile_cached(
         expr, tuple(var.name for var in variables), tuple(var_indices.items())
